@@ -177,7 +177,19 @@ func cmpTyped(m *Model, t T, orig, got any, path string, out *[]Diff) {
 					}
 					*out = append(*out, Diff{Path: fp, Class: cls, Detail: fmt.Sprintf("%s is in the original but not in the re-encoding", short(ov)), FieldKind: f.Type.Kind})
 				case !oin && gin:
-					*out = append(*out, Diff{Path: fp, Class: "extra", Detail: fmt.Sprintf("the re-encoding adds %s", short(gv)), FieldKind: f.Type.Kind})
+					cls := "extra"
+					if rt := m.Resolve(f.Type); f.Type.Const != nil || rt.Const != nil {
+						cls = "constant-materialised"
+					} else if f.Type.Default != nil {
+						if _, same := jsonEq(rawAny(f.Type.Default), gv, fp); same {
+							cls = "default-materialised"
+						}
+					} else if rt := m.Resolve(f.Type); rt.Default != nil {
+						if _, same := jsonEq(rawAny(rt.Default), gv, fp); same {
+							cls = "default-materialised"
+						}
+					}
+					*out = append(*out, Diff{Path: fp, Class: cls, Detail: fmt.Sprintf("the re-encoding adds %s", short(gv)), FieldKind: f.Type.Kind})
 				case oin && gin:
 					cmpTyped(m, f.Type, ov, gv, fp, out)
 				}
